@@ -527,7 +527,7 @@ def backend_cases(res, tier, seed):
 
 
 # ---------------------------------------------------------------- gpsd setup() end to end (C12, C20)
-def gpsd_setup_cases(res, prop, rng, n, PATHS):
+def gpsd_setup_cases(res, prop, rng, n, PATHS, jtok=None, cases=None):
     """setup() over the stub sockets: handshake loop, device selection, command header, one command. Returns the number of runs."""
     import json
     n_total = n
@@ -539,14 +539,18 @@ def gpsd_setup_cases(res, prop, rng, n, PATHS):
         requested = rng.choice([None, '/dev/ttyACM1', '/dev/b', ''])
         lists = []
         chunks = []
+        ctoks = []
         for _c in range(rng.randrange(1, 4)):
             devs = rng.sample(PATHS, rng.randrange(0, 4))
             lists.append(devs)
             line = json.dumps({'class': 'DEVICES', 'devices': [dict({'class': 'DEVICE', 'path': p_}, **rng.choice([{}, {'driver': 'NMEA0183'}, {'driver': None}, {'driver': 'u-blox'}])) for p_ in devs]}, ensure_ascii=rng.random() < 0.5).encode('utf-8')
-            pre = rng.choice([b'', b'{"class":"VERSION","release":"3.25"}\r\n', b'$GPRMC,1*00\r\n', b'\r\n'])
+            dv = {'class': 'DEVICES', 'devices': json.loads(line.decode('utf-8'))['devices']}
+            pre, pre_tok = rng.choice([(b'', []), (b'{"class":"VERSION","release":"3.25"}\r\n', ['V']), (b'$GPRMC,1*00\r\n', ['X']), (b'\r\n', ['X'])])
             chunks.append(pre + line + b'\r\n')
+            ctoks.append(pre_tok + [dv])
         if rng.random() < 0.5:      # several lists in one recv(): all are processed before the loop can stop
             chunks = [b''.join(chunks)]
+            ctoks = [[t for c_ in ctoks for t in c_]]
         srv, SV = gpsd_server(requested or None)
         StubSocket.plan = {'data_chunks': list(chunks) + [Stop], 'reply': b'OK'}
         try:
@@ -559,6 +563,7 @@ def gpsd_setup_cases(res, prop, rng, n, PATHS):
         except Exception as e:
             res.violation('setup(): the handshake raised ' + type(e).__name__, {'property': prop, 'input': {'requested': requested, 'device_lists': lists, 'chunks': [c.decode('latin-1') for c in chunks]}, 'result': repr(e)}, prop.lower() + '-setup-raise|' + type(e).__name__)
             continue
+        StubSocket_plan_left = list((StubSocket.plan or {}).get('data_chunks', []))
         sel, en = None, False
         # what the handshake must have selected by the time it stopped reading
         seen = []
@@ -573,6 +578,15 @@ def gpsd_setup_cases(res, prop, rng, n, PATHS):
                 break
         desc = {'requested': requested, 'device_lists': lists, 'one_chunk': len(chunks) == 1}
         n_setup += 1
+        if jtok is not None and cases is not None:
+            # the same handshake through the model of the loop (model/Gpsd.v: enable_loop): selection, readiness, chunks left unread, header
+            def tok(t):
+                return 'X' if t == 'X' else jtok({'class': 'VERSION', 'release': '3.25'}) if t == 'V' else jtok(t)
+            cmd = 'gpsdenable ' + ('-' if not requested else requested.encode().hex()) + ' ' + ' '.join('L:' + ';'.join(tok(t) for t in c_) for c_ in ctoks)
+            unread = len([c_ for c_ in StubSocket_plan_left if not isinstance(c_, type)])
+            hdr = srv.cmd_header.decode('utf-8') if done and srv.cmd_header else ('&' + srv.selected_device + '=' if srv.selected_device else 'None')
+            impl = f'sel={srv.selected_device} enabled={srv.enabled} unread={unread} header={hdr}'
+            cases.append(Case('gpsd-setup-loop', cmd, impl, desc, kind='setup/' + ('ready' if done else 'not-ready')))
         if done != en or srv.selected_device != sel:
             res.violation('setup(): handshake selected the wrong device or finished in the wrong state',
                           {'property': prop, 'input': desc, 'expected': [sel, en], 'result': [srv.selected_device, srv.enabled, done]}, prop.lower() + f'-setup|{bool(requested)}')
